@@ -96,6 +96,7 @@ def state_json(st, prof, thr=-1, p=None, inv=None):
         "thr": int(thr),
         "p": rat(p) if p is not None else [0, 0],
         "vorder": [],
+        "rn": int(getattr(st, "round_number", -1)),
     }
 
 
